@@ -150,7 +150,8 @@ class CNEntry(optree.PyTreeEntry):
         return obj.get(self.entry)
 
     def codify(self, node=''):
-        return f'{node}.get({self.entry!r})'
+        # deliberately NOT suffix-style: the expression for the parent is an argument of the generated code
+        return f'(lambda _o: _o.get({self.entry!r}))({node})'
 
 
 class CN:
@@ -170,7 +171,8 @@ class CN:
 def cn_flatten(obj):
     _rec('flatten', 'tag:CN@ns', obj)
     return (
-        list(obj.children),
+        # the canonical variant hands its children over as a ONE-SHOT iterator (with explicit entries), others as a list
+        iter(list(obj.children)) if obj.meta == 'm' else list(obj.children),
         ('tag:CN@ns', obj.meta),
         tuple(f'e{i}' for i in range(len(obj.children))),
     )
@@ -233,7 +235,8 @@ def cs_unflatten_global(metadata, children):
 def cs_flatten_ns(obj):
     _rec('flatten', 'tag:CS@ns', obj)
     n = len(obj.children)
-    return tuple(reversed(obj.children)), 'tag:CS@ns', tuple(range(n - 1, -1, -1))
+    # entries as an instance of a tuple SUBCLASS (flatten functions may return any tuple)
+    return tuple(reversed(obj.children)), 'tag:CS@ns', TupleSub(range(n - 1, -1, -1))
 
 
 def cs_unflatten_ns(metadata, children):
@@ -349,7 +352,7 @@ def probe(*args, **kwargs):
 class Universe:
     """Performs the registrations (once per process) and records the truth."""
 
-    NAMESPACES = ('', 'ns', 'unk')
+    NAMESPACES = ('', 'ns', 'xnsx')
 
     def __init__(self):
         self.reg = {}  # (namespace, type) -> Reg
